@@ -90,6 +90,22 @@ variable {F : Type} [Add F] [Sub F] [Mul F] [Div F] [Neg F] [LT F] [LE F] [BEq F
 
 /-! ## A. operators -/
 
+/-- `Unit` itself: every checked unit operation erases to the unchecked one -/
+theorem erase_unit_ops (a b : DUnit) (mm sec : Int) :
+    eraseU (DUnit.new true mm sec) = DUnit.new false mm sec ∧
+    eraseU (DUnit.mul true a b) = DUnit.mul false (eraseU a) (eraseU b) ∧
+    eraseU (DUnit.div true a b) = DUnit.div false (eraseU a) (eraseU b) ∧
+    (∀ r, DUnit.add true a b = .ok r → DUnit.add false (eraseU a) (eraseU b) = .ok (eraseU r)) ∧
+    (∀ r, DUnit.sub true a b = .ok r → DUnit.sub false (eraseU a) (eraseU b) = .ok (eraseU r)) ∧
+    (DUnit.eqAssumeTrue true a b = true → DUnit.eqAssumeTrue false (eraseU a) (eraseU b) = true) ∧
+    (DUnit.assertEqAssumeOk true a b = .ok () → DUnit.assertEqAssumeOk false (eraseU a) (eraseU b) = .ok ()) ∧
+    eraseU (SECOND true) = SECOND false ∧ eraseU (MILLIMETER true) = MILLIMETER false ∧
+    eraseU (DIMENSIONLESS true) = DIMENSIONLESS false ∧
+    eraseU (MILLIMETER_PER_SECOND true) = MILLIMETER_PER_SECOND false ∧
+    eraseU (MILLIMETER_PER_SECOND_SQUARED true) = MILLIMETER_PER_SECOND_SQUARED false :=
+  ⟨rfl, rfl, rfl, fun _ _ => rfl, fun _ _ => rfl, fun _ => rfl, fun _ => rfl, rfl, rfl, rfl, rfl, rfl⟩
+example : DUnit.add true ⟨1, -1⟩ ⟨1, -1⟩ = .ok ⟨1, -1⟩ := rfl
+
 /-- what a successful checked addition returned -/
 theorem add_true_ok {a b r : Quantity F} (h : Quantity.add true a b = .ok r) :
     r = ⟨a.value + b.value, a.unit⟩ := (MpL.add_ok h).1
@@ -1653,12 +1669,3 @@ theorem manual_abs_eq_abs (q : Quantity F) : Quantity.absManual q = Quantity.abs
 end R
 
 end Rrtk.Thm.C19
-#print axioms Rrtk.Thm.C19.erase_program
-#print axioms Rrtk.Thm.C19.erase_quantity_ops
-#print axioms Rrtk.Thm.C19.erase_streams_a2s
-#print axioms Rrtk.Thm.C19.erase_streams_ma
-#print axioms Rrtk.Thm.C19.erase_motion_profile
-#print axioms Rrtk.Thm.C19.erase_mp_end_to_end
-#print axioms Rrtk.Thm.C19.manual_abs_eq_abs
-#print axioms Rrtk.Thm.C19.streams_unchecked_never_panics
-#print axioms Rrtk.Thm.C19.unchecked_never_dim_panics
